@@ -515,3 +515,59 @@ example :
   decide
 
 end Woodpile.Props.C13
+
+namespace Woodpile.Props.C13
+open Woodpile.Abt
+
+/-- Synchronises-with, call form.  `U` is a call its thread had completed when thread `t`
+synchronised with that thread (`sync t U.tid`, step number `g0.clock`); `S` is any call of `t`
+that starts after that step, in any continuation `ls` of the execution: then `S`'s start view
+includes `U`'s return view. -/
+theorem ra_sync_order {chk : Nat → Nat → Bool} {v0 : Nat} (h0 : chk 0 v0 = true) {g0 g1 g2 : (RA.mach chk).GState}
+    (h : RA.GReachable chk v0 g0) (U : CallRec) (hU : U ∈ g0.done) (t : Nat)
+    (hsync : (RA.mach chk).gstep g0 (.sync t U.tid) = some g1) (ls : List Label)
+    (hrun : (RA.mach chk).grun g1 ls = some g2)
+    (S : CallRec) (hS : S ∈ g2.done) (hSt : S.tid = t) (hlater : g0.clock < S.tStart) : U.vRet ≤ S.vStart :=
+  Mach.sync_order (RA.laws chk) (RA.ginv_reachable h0 h) U hU t hsync ls hrun S hS hSt hlater
+
+/-- END TO END across threads: thread `U.tid` completed `update(b, v)` (or `try_update(b, v) = true`),
+then thread `t` synchronised with it (join, channel, …), then `t` called `snapshot`: that
+snapshot returns a base time ≥ `b`. -/
+theorem ra_synced_update_visible {chk : Nat → Nat → Bool} {v0 : Nat} (h0 : chk 0 v0 = true)
+    {g0 g1 g2 : (RA.mach chk).GState} (h : RA.GReachable chk v0 g0) (U : CallRec) (hU : U ∈ g0.done) (t : Nat)
+    (hsync : (RA.mach chk).gstep g0 (.sync t U.tid) = some g1) (ls : List Label)
+    (hrun : (RA.mach chk).grun g1 ls = some g2)
+    (S : CallRec) (hS : S ∈ g2.done) (hSt : S.tid = t) (hlater : g0.clock < S.tStart) (b v sb sv : Nat)
+    (hUop : (U.op = .update b v ∧ ∃ r, U.res = .bool r) ∨ (U.op = .tryUpdate b v ∧ U.res = .bool true))
+    (hSop : S.op = .snapshot) (hSres : S.res = .snap sb sv) : b ≤ sb := by
+  have hg2 : RA.GReachable chk v0 g2 := by
+    obtain ⟨l0, hl0⟩ := h
+    refine ⟨l0 ++ (.sync t U.tid :: ls), ?_⟩
+    rw [Mach.grun_append, hl0]
+    simp only [Mach.grun, hsync]
+    exact hrun
+  have hU2 : U ∈ g2.done :=
+    Mach.done_mono _ ls g1 g2 hrun U (Mach.done_mono_step _ g0 g1 _ hsync U hU)
+  exact ra_update_then_snapshot h0 hg2 U S hU2 hS b v sb sv hUop hSop hSres
+    (ra_sync_order h0 h U hU t hsync ls hrun S hS hSt hlater)
+
+end Woodpile.Props.C13
+
+namespace Woodpile.Props.C13
+open Woodpile.Abt
+
+/-! Non-vacuity of `ra_sync_order` / `ra_synced_update_visible`: in the execution of the example
+above, `g0` = the state after the first 15 labels has the completed `update (5, 105)` of thread 0
+in `done` and `clock = 15`; the next label is `sync 1 0`; thread 1's snapshot starts at step
+16 > 15 (and, in that example, returns `(5, 105)`). -/
+example :
+    ((RA.mach (fun b v => v == b + 100)).grun ((RA.mach (fun b v => v == b + 100)).ginit (RA.init 100))
+      [.start 0 (.update 5 105), .run 0 0, .run 0 0, .run 0 0, .run 0 0, .run 0 0, .run 0 0, .run 0 0, .run 0 0,
+       .start 2 (.tryUpdate 3 103), .run 2 0, .run 2 1, .run 2 1, .run 2 1, .run 2 0]).map
+      (fun g0 => decide ((⟨0, .update 5 105, 0, 1, 0, 8, .bool true⟩ : CallRec) ∈ g0.done ∧ g0.clock = 15 ∧
+        (((RA.mach (fun b v => v == b + 100)).grun g0
+            [.sync 1 0, .start 1 .snapshot, .run 1 1, .run 1 1, .run 1 1, .run 1 1]).map
+          (fun g2 => decide ((⟨1, .snapshot, 1, 1, 16, 20, .snap 5 105⟩ : CallRec) ∈ g2.done))) = some true))
+      = some true := by decide
+
+end Woodpile.Props.C13
